@@ -5,6 +5,8 @@ cd /verif
 # a builder that committed on a detached HEAD leaves its branch where it started: nothing to merge is an error
 if [ -z "$(git rev-list HEAD.."$1" 2>/dev/null)" ]; then echo "NOTHING TO MERGE: $1 has no commit that main lacks (did the builder commit elsewhere? see git fsck --lost-found)"; exit 1; fi
 git merge --no-commit --no-ff "$1" >/dev/null 2>&1
+# evidence files are rewritten by every run: take the branch's copy
+for f in $(git diff --name-only --diff-filter=U | grep "^evidence/"); do git checkout --theirs -- "$f"; done
 for f in lean/FordModel.lean lean/FordModel/Dispatch.lean MANIFEST.json; do
   git checkout --ours -- "$f" 2>/dev/null
 done
